@@ -3,6 +3,7 @@ import NomtModel.Core.Binding
 import NomtModel.Core.VTop
 import NomtModel.Core.Complete
 import NomtModel.Core.TermHasher
+import NomtModel.Core.UpdateApply
 /-!
 # C08 — Proof verification never accepts a false statement
 
@@ -35,8 +36,8 @@ theorem T8_4_root_binding (hs : H.Sound) (L : Nat) (S S' : List (Key × VH))
 returns the specified root of the updated set `S'` whenever each path's replacement sub-root and its
 untouched siblings are the specified nodes of `S'` (`PathOK`) and the paths are canonically arranged
 (`PCanon`: ascending, none a prefix of another).
-*Partial*: deriving `PathOK`/`PCanon` from `verify` + the argument checks is not yet proved in Lean;
-that glue is held by the correspondence run (honest and malformed update streams vs. the reference root). -/
+(Name kept for compatibility: the glue deriving `PathOK`/`PCanon` from `verify` + the argument checks is now
+proved, see `T8_3_verify_update_sound` / `T8_3_verify_update_complete` below.) -/
 theorem T8_3_verifyUpdate_core_partial (hs : H.Sound) (L : Nat) (S' : List (Key × VH)) (hc' : Canon L 0 S')
     (prevRoot : Node) (paths : List (PathUpd Node)) (hne : paths ≠ [])
     (hpc : PCanon L 0 paths) (hok : ∀ p ∈ paths, PathOK H L S' paths 0 p) :
@@ -52,5 +53,73 @@ example : ∃ v, verify TH 2 (proveSpec TH 2 exS [false, true]) [false, true] (n
   refine ⟨_, rfl, ?_⟩; decide
 example : verify TH 2 { terminal := .leaf [false, true] 99, siblings := (proveSpec TH 2 exS [false, true]).siblings }
     [false, true] (nodeAt TH 2 0 exS) = .error .rootMismatch := by rfl
+
+/-- T8.3 **update soundness, end to end** (`verify_update` of path_proof.rs, with its argument checks,
+`leaf_ops_spliced`, `build_trie` and the compacting stack loop): for every set `S` of `L`-bit keys, every list of
+paths each produced by `PathProof::verify` against the root of `S` (whatever proofs the prover sent), and
+every list of ops with `L`-bit keys: if `verify_update` answers `ok r` then `r` is the root of the set
+obtained from `S` by applying all the ops with the sequential key-value model `kvApply` (Api/KV.lean).
+The hypotheses `PCanon`/`PathOK` of `T8_3_verifyUpdate_core_partial` are *derived* here from `verify` and the
+argument checks (`Core/UpdateGlue*.lean`). -/
+theorem T8_3_verify_update_sound (hs : H.Sound) (L : Nat) (S : List (Key × VH)) (hc : Canon L 0 S)
+    (hlen : ∀ kv ∈ S, kv.1.length = L) (paths : List (PathUpdateIn Node VH))
+    (hv : ∀ p ∈ paths, ∃ P kp, kp.length = L ∧ verify H L P kp (nodeAt H L 0 S) = .ok p.inner)
+    (hol : ∀ p ∈ paths, ∀ o ∈ p.ops, o.1.length = L)
+    (r : Node) (h : pathVerifyUpdate H L (nodeAt H L 0 S) paths = .ok r) :
+    r = nodeAt H L 0 (kvApply S (allOps paths)) :=
+  pathVerifyUpdate_sound hs hc hlen (fun p hp => let ⟨P, kp, _, h⟩ := hv p hp; ⟨P, kp, h⟩) hol r h
+
+/-- T8.3, positive half: if moreover the argument checks pass (paths strictly ascending, each with
+non-empty, strictly ascending, in-scope ops) the verdict *is* `ok` of that root — no panic, no error. -/
+theorem T8_3_verify_update_complete (hs : H.Sound) (L : Nat) (S : List (Key × VH)) (hc : Canon L 0 S)
+    (hlen : ∀ kv ∈ S, kv.1.length = L) (paths : List (PathUpdateIn Node VH)) (hne : paths ≠ [])
+    (hv : ∀ p ∈ paths, ∃ P kp, kp.length = L ∧ verify H L P kp (nodeAt H L 0 S) = .ok p.inner)
+    (hol : ∀ p ∈ paths, ∀ o ∈ p.ops, o.1.length = L)
+    (hchk : checkPaths (nodeAt H L 0 S) none paths = none) :
+    pathVerifyUpdate H L (nodeAt H L 0 S) paths = .ok (nodeAt H L 0 (kvApply S (allOps paths))) :=
+  pathVerifyUpdate_eq_kvApply
+    ⟨hs, hc, hlen, fun p hp => let ⟨P, kp, _, h⟩ := hv p hp; ⟨P, kp, h⟩, hol, hchk⟩ hne
+
+/-- T8.3, relational form: any strictly ascending `S'` with the right members (`UpdatedSet`) will do. -/
+theorem T8_3_verify_update_eq_root (hs : H.Sound) (L : Nat) (S S' : List (Key × VH)) (hc : Canon L 0 S)
+    (hlen : ∀ kv ∈ S, kv.1.length = L) (paths : List (PathUpdateIn Node VH)) (hne : paths ≠ [])
+    (hv : ∀ p ∈ paths, ∃ P kp, kp.length = L ∧ verify H L P kp (nodeAt H L 0 S) = .ok p.inner)
+    (hol : ∀ p ∈ paths, ∀ o ∈ p.ops, o.1.length = L)
+    (hchk : checkPaths (nodeAt H L 0 S) none paths = none)
+    (U : UpdatedSet S (allOps paths) S') :
+    pathVerifyUpdate H L (nodeAt H L 0 S) paths = .ok (nodeAt H L 0 S') :=
+  pathVerifyUpdate_eq_root
+    ⟨hs, hc, hlen, fun p hp => let ⟨P, kp, _, h⟩ := hv p hp; ⟨P, kp, h⟩, hol, hchk⟩ hne U
+
+/-! Non-vacuity of T8.3: two honestly verified paths of `exS` (a leaf terminal and a terminator), an
+overwrite, an insert into the empty sub-trie and a delete; the verdict is the root of the updated set. -/
+def exV (k : Key) : Verified T Nat :=
+  match verify TH 2 (proveSpec TH 2 exS k) k (nodeAt TH 2 0 exS) with
+  | .ok v => v
+  | .error _ => ⟨[], none, [], T.term⟩
+def exPaths : List (PathUpdateIn T Nat) :=
+  [ { inner := exV [false, true], ops := [([false, true], some 5)] },
+    { inner := exV [true, false], ops := [([true, false], some 1), ([true, true], none)] } ]
+example : kvApply exS (allOps exPaths) = [([false, false], 7), ([false, true], 5), ([true, false], 1)] := by decide
+example : pathVerifyUpdate TH 2 (nodeAt TH 2 0 exS) exPaths
+    = .ok (nodeAt TH 2 0 [([false, false], 7), ([false, true], 5), ([true, false], 1)]) := by
+  apply T8_3_verify_update_complete TH TH_sound 2 exS (by simp [exS, Canon, side]) (by simp [exS]) exPaths
+    (by simp [exPaths])
+  · intro p hp
+    simp only [exPaths, List.mem_cons, List.not_mem_nil, or_false] at hp
+    rcases hp with rfl | rfl
+    · exact ⟨proveSpec TH 2 exS [false, true], [false, true], rfl, rfl⟩
+    · exact ⟨proveSpec TH 2 exS [true, false], [true, false], rfl, rfl⟩
+  · simp only [exPaths]; decide
+  · decide
+example (r : T) (h : pathVerifyUpdate TH 2 (nodeAt TH 2 0 exS) exPaths = .ok r) :
+    r = nodeAt TH 2 0 [([false, false], 7), ([false, true], 5), ([true, false], 1)] := by
+  apply T8_3_verify_update_sound TH TH_sound 2 exS (by simp [exS, Canon, side]) (by simp [exS]) exPaths _ _ r h
+  · intro p hp
+    simp only [exPaths, List.mem_cons, List.not_mem_nil, or_false] at hp
+    rcases hp with rfl | rfl
+    · exact ⟨proveSpec TH 2 exS [false, true], [false, true], rfl, rfl⟩
+    · exact ⟨proveSpec TH 2 exS [true, false], [true, false], rfl, rfl⟩
+  · simp only [exPaths]; decide
 
 end Nomt.C08
